@@ -3,6 +3,7 @@ package main
 import (
 	"fmt"
 	"go/token"
+	"go/types"
 	"sort"
 	"strings"
 
@@ -478,6 +479,7 @@ func ruleC10(c *Ctx, r *Report) {
 
 	// ---- R3 determinism
 	r.Floor("C10-R3", 3, "effect scan, key stores, setter callers")
+	keysetConstantsRule(c, r, enc, "C10-R3")
 	reach := c.pkgReach(enc)
 	nEff := 0
 	for f := range reach {
@@ -760,4 +762,92 @@ func describeOperand(v ssa.Value) string {
 		return shortKey(calleeKey(&x.Call)) + "()"
 	}
 	return "_"
+}
+
+// keysetConstantsRule: the keyset built around the raw key is a pure function of the key:
+// key id and primary key id are constants, the output prefix type is the constant RAW
+// (a TINK/LEGACY prefix would prepend the key id to every ciphertext), the key material is
+// the function's parameter as a whole, and no other field is computed from anything but
+// constants and the parameter.
+func keysetConstantsRule(c *Ctx, r *Report, enc *ssa.Function, rule string) {
+	var kf *ssa.Function
+	for f := range c.pkgReach(enc) {
+		if f == enc {
+			continue
+		}
+		res := f.Signature.Results()
+		if res.Len() >= 1 && strings.HasSuffix(res.At(0).Type().String(), "keyset.Handle") {
+			kf = f
+		}
+	}
+	if kf == nil {
+		r.Undecided(rule, "keyset-builder", "-", "no package function reachable from Encrypt returns a *keyset.Handle")
+		return
+	}
+	var bad []string
+	seenFields := map[string]bool{}
+	allInstrs(kf, func(i ssa.Instruction) {
+		st, ok := i.(*ssa.Store)
+		if !ok {
+			return
+		}
+		fa, ok := st.Addr.(*ssa.FieldAddr)
+		if !ok {
+			return
+		}
+		_, fv := fieldOf(fa)
+		if fv == nil {
+			return
+		}
+		name := fv.Name()
+		v := st.Val
+		for {
+			if cv, ok := v.(*ssa.Convert); ok {
+				v = cv.X
+				continue
+			}
+			if ct, ok := v.(*ssa.ChangeType); ok {
+				v = ct.X
+				continue
+			}
+			break
+		}
+		switch name {
+		case "KeyId", "PrimaryKeyId", "Version":
+			seenFields[name] = true
+			if _, isC := v.(*ssa.Const); !isC {
+				bad = append(bad, name+" is not a constant ("+c.InstrPos(i)+"): ciphertexts or key selection can differ between runs")
+			}
+		case "OutputPrefixType":
+			seenFields[name] = true
+			cst, isC := v.(*ssa.Const)
+			okRaw := false
+			if isC {
+				if named, ok := fv.Type().(*types.Named); ok && named.Obj().Pkg() != nil {
+					if o, ok := named.Obj().Pkg().Scope().Lookup("OutputPrefixType_RAW").(*types.Const); ok {
+						if n, ok2 := constInt(cst); ok2 && o.Val().String() == fmt.Sprint(n) {
+							okRaw = true
+						}
+					}
+				}
+			}
+			if !okRaw {
+				bad = append(bad, "OutputPrefixType is not the constant RAW ("+c.InstrPos(i)+"): a key-id prefix would be prepended to every ciphertext")
+			}
+		case "KeyValue":
+			seenFields[name] = true
+			if _, isP := v.(*ssa.Parameter); !isP {
+				bad = append(bad, "KeyValue is not the raw-key parameter as a whole ("+c.InstrPos(i)+")")
+			}
+		}
+	})
+	for _, n := range []string{"KeyId", "PrimaryKeyId", "OutputPrefixType", "KeyValue"} {
+		if !seenFields[n] {
+			bad = append(bad, "field "+n+" is not set in "+kf.Name())
+		}
+	}
+	sort.Strings(bad)
+	r.Check(len(bad) == 0, rule, kf.Name()+":keyset-is-a-function-of-the-key", c.Pos(kf.Pos()),
+		"key id, primary key id and version are constants, the output prefix type is RAW, the key material is the parameter itself: the primitive depends on the key alone",
+		strings.Join(bad, "; "))
 }
